@@ -304,8 +304,14 @@ class Interp:
     def ev_BoolOp(self, n):
         is_and = isinstance(n.op, ast.And)
         if self.st.merge:
-            # value semantics via If-chains
-            vals = [self.ev(x) for x in n.values]
+            # value semantics via If-chains; operands after a concretely deciding one are not evaluated (short circuit)
+            vals = []
+            for x in n.values:
+                v = self.ev(x)
+                vals.append(v)
+                t = self.truth(v)
+                if isinstance(t, bool) and (t != is_and):
+                    break
             res = vals[-1]
             for v in reversed(vals[:-1]):
                 t = self.truth(v)
@@ -721,6 +727,21 @@ class Interp:
         return self.ev(d)
 
     def run_function(self, node, globs, qual, args, kw, closure, fobj):
+        if self.st.merge and not self.st.ghost.get('pc_aware'):
+            try:
+                return self._run_function(node, globs, qual, args, kw, closure, fobj)
+            except Unsupported as ex:
+                if 'merge' not in str(ex):
+                    raise
+            # results of different shape per case: let the path condition pick the branches (see modular._merge_if)
+            self.st.ghost['pc_aware'] = True
+            try:
+                return self._run_function(node, globs, qual, args, kw, closure, fobj)
+            finally:
+                self.st.ghost['pc_aware'] = False
+        return self._run_function(node, globs, qual, args, kw, closure, fobj)
+
+    def _run_function(self, node, globs, qual, args, kw, closure, fobj):
         fr = Frame(fobj, {}, globs, qual, node, closure)
         self.frames.append(fr)
         try:
